@@ -52,24 +52,49 @@ Ltac bool_hyps_ns :=
   end.
 Ltac use_imps :=
   repeat match goal with
-  | H : ?P -> _, H' : ?P |- _ => specialize (H H')
+  | H : ?P -> _, H' : ?P |- _ =>
+      lazymatch type of P with Prop => specialize (H H') | _ => fail end
   end.
 
-(* walks through an obligation term: conjunctions, lets (substituted one at a time, projections of tuples
-   evaluated), conditionals (integer comparisons are decided once and for all, any other condition is
-   destructed as a whole and remembered), leaves closed by `leaf` *)
+(* let-bound values are turned into variables: a continuation `k := fun u => ...` becomes a variable with
+   `forall u, k u = true` (proved once), any other value a variable x with `x = v` (arrays: only the shape is kept) *)
+Lemma let_eq_true {A} (v : A) (F : A -> bool) : (forall x, x = v -> F x = true) -> (let x := v in F x) = true.
+Proof. intros Hf. exact (Hf v eq_refl). Qed.
+Lemma let_fun_true {A} (f : A -> bool) (R : (A -> bool) -> bool) :
+  (forall u, f u = true) -> (forall k, (forall u, k u = true) -> R k = true) -> (let k := f in R k) = true.
+Proof. intros Hf HR. exact (HR f Hf). Qed.
+
+Ltac let_post x Hx :=
+  lazymatch type of x with
+  | arr _ =>
+      let S := fresh "S" in
+      pose proof (f_equal shape Hx) as S; rewrite ?shape_set in S;
+      try match type of S with
+          | _ = shape ?a => match goal with Ha : shape a = _ |- _ => rewrite Ha in S end
+          end;
+      clear Hx
+  | Z => idtac
+  | _ => clear Hx
+  end.
+
+(* walks through an obligation term: conjunctions, lets (see above), conditionals (integer comparisons are
+   decided once and for all, any other condition is destructed as a whole and remembered), calls of
+   let-bound continuations, leaves closed by `leaf` *)
 Ltac ok_walk leaf :=
-  cbv beta;
   lazymatch goal with
   | |- true = true => reflexivity
   | |- andb _ _ = true => apply andb_true_intro; split; ok_walk leaf
   | |- (let x := ?v in @?F x) = true =>
-      let v' := lazymatch v with
-                | fst _ => eval cbv beta iota delta [fst snd] in v
-                | snd _ => eval cbv beta iota delta [fst snd] in v
-                | _ => v
-                end in
-      let G := eval cbv beta in (F v') in change (G = true); ok_walk leaf
+      let tv := type of v in
+      lazymatch tv with
+      | _ -> bool =>
+          refine (let_fun_true v F _ _);
+          [ intro; cbv beta; ok_walk leaf
+          | let k := fresh "k" in let Hk := fresh "Hk" in intros k Hk; cbv beta; ok_walk leaf ]
+      | _ =>
+          let x := fresh "x" in let Hx := fresh "Hx" in
+          refine (let_eq_true v F _); intros x Hx; cbv beta; let_post x Hx; ok_walk leaf
+      end
   | |- (if ?c then ?a else ?b) = true =>
       let c' := eval cbn [andb negb orb] in c in
       lazymatch c' with
@@ -81,6 +106,7 @@ Ltac ok_walk leaf :=
       | _ => let E := fresh "E" in destruct c eqn:E; bool_hyps_ns; use_imps; ok_walk leaf
       end
   | |- obD false _ = true => reflexivity
+  | Hk : forall u, ?k u = true |- ?k _ = true => apply Hk
   | |- _ => leaf
   end.
 
